@@ -233,6 +233,8 @@ def fam_c11(tier, rng):
             jobs.append({"id": f"m{k}", "actor": f"mine{q}" if mine else (other or rng.choice([f"foreign{rng.randrange(2)}", f"mine{q}x", f"mine{q}_daily"])), "queue": f"q{q}",
                          "script": ["ok"], "dur_ms": [rng.choice([0, 50])], "at_ms": rng.choice([0, 0, 200]),
                          "must_run": mine, "foreign": not mine})
+            if not mine and rng.random() < 0.3:
+                jobs[-1]["ttl_ms"] = rng.choice([1000, 2500])     # a foreign message that expires while it waits: still not this worker's business
         scs.append(default_scenario(jobs=jobs, actors=actors, worker={"tasks_limit": rng.choice([1, 3]), "messages_limit": 0, "grace_s": 0.5},
                                     horizon_ms=6000, deadline_ms=5000))
     return scs
